@@ -9,7 +9,7 @@ import (
 	"path/filepath"
 	"regexp"
 	"strings"
-		"time"
+	"time"
 )
 
 type SolverRes struct {
